@@ -629,6 +629,60 @@ fn families(thorough: bool) -> Vec<Prog> {
             names: with_names(&["mk2", "a1"]),
         });
     }
+    // ---- a declaration whose right-hand side mentions the names it declares: every use on the
+    // right denotes the declaration that precedes the statement (all components are evaluated
+    // before any name is bound), and a function value made on the right captures that one too;
+    // with the earlier values constants, run-time values at top level, parameters, values read
+    // from cells, and inside a loop body
+    {
+        // (statement, observation, expected with x = 1, y = 2, z = 3, names it adds)
+        let templates: &[(&str, &str, &str, &[&str])] = &[
+            ("(x, y) := (y, x)", "(x, y)", "(2, 1)", &[]),
+            ("(x, y) := (y, x + y)", "(x, y)", "(2, 3)", &[]),
+            ("(x, y) := (x + y, x)", "(x, y)", "(3, 1)", &[]),
+            ("(x, y, z) := (y, z, x)", "(x, y, z)", "(2, 3, 1)", &[]),
+            ("x := x + 10", "(x, y)", "(11, 2)", &[]),
+            ("(x, w) := (x + 1, x + 2)", "(x, w)", "(2, 3)", &["w"]),
+            ("(x, get) := (x + 100, () -> int { return x })", "(x, get())", "(101, 1)", &["get"]),
+            ("(get, x) := (() -> int { return x }, x + 100)", "(x, get())", "(101, 1)", &["get"]),
+            ("(x, y) := ((y, x).0, (y, x).1)", "(x, y)", "(2, 1)", &[]),
+            ("(x, y) := (idi(y), idi(x))", "(x, y)", "(2, 1)", &[]),
+        ];
+        let idi = "idi := (q: int) -> int { return q }".to_string();
+        for (stmt, obs, want, extra) in templates {
+            let mut nm: Vec<&str> = vec!["idi", "x", "y", "z"];
+            nm.extend(extra.iter());
+            for (mode, binders) in [
+                ("constants", vec!["x := 1", "y := 2", "z := 3"]),
+                ("run-time values", vec!["x := idi(1)", "y := idi(2)", "z := idi(3)"]),
+                ("values read from cells", vec!["cx := mut 1", "cy := mut 2", "cz := mut 3", "(x, y, z) := (*cx, *cy, *cz)"]),
+            ] {
+                let mut stmts = pre(vec![idi.clone()]);
+                stmts.extend(binders.iter().map(|b| b.to_string()));
+                stmts.push(stmt.to_string());
+                stmts.push(obs.to_string());
+                let mut nm2 = nm.clone();
+                if mode == "values read from cells" {
+                    nm2.extend(["cx", "cy", "cz"]);
+                }
+                out.push(Prog { family: format!("declaration from the names it declares ({mode}): {stmt}"), stmts, expected: Some(want.to_string()), names: with_names(&nm2) });
+            }
+            // the names are parameters
+            out.push(Prog {
+                family: format!("declaration from the names it declares (parameters): {stmt}"),
+                stmts: pre(vec![idi.clone(), format!("pf := (x: int, y: int, z: int) -> any {{ {stmt}; return {obs} }}"), "pf(1, 2, 3)".into()]),
+                expected: Some(want.to_string()),
+                names: with_names(&["idi", "pf"]),
+            });
+            // in a loop body that runs twice (the second round starts from fresh bindings of the loop's own)
+            out.push(Prog {
+                family: format!("declaration from the names it declares (loop body): {stmt}"),
+                stmts: pre(vec![idi.clone(), format!("lf := () -> any {{ seen := mut [any] []; for round in [0, 0]~ {{ x := idi(1); y := idi(2); z := idi(3); {stmt}; seen += [{obs}] }}; return *seen }}"), "lf()".into()]),
+                expected: Some(format!("[{want}, {want}]")),
+                names: with_names(&["idi", "lf"]),
+            });
+        }
+    }
     out
 }
 
